@@ -273,6 +273,9 @@ def zoo_pipeline(ctx, invariants, tier=None, scale=1.0, what="", light=False):
         "max_depth": stats["max_depth"], "tlc_emitted": stats["emitted"],
         "events": tot.get("events", 0), "fetch_runs": tot.get("fetch_runs", 0), "setup_runs": tot.get("setup_runs", 0),
         "exec_runs": tot.get("exec_runs", 0),
+        "fetch_contexts": {"normal": tot.get("fetch_normal", 0),
+                           "value_dropped_by_unwinding_panic": tot.get("fetch_dropped_by_unwinding", 0),
+                           "fetch_issued_in_drop_while_unwinding": tot.get("fetch_in_drop_while_unwinding", 0)},
         "twin_blocks_same_type_name_distinct_resource_types": tot.get("twin_blocks", 0),
         "second_pass_blocks_declarations_requeried_in_shuffled_order": tot.get("second_pass", 0),
         "fetch_ok": tot.get("fetch_ok", 0), "fetch_panic_missing": tot.get("fetch_missing", 0),
